@@ -1,5 +1,5 @@
 """Per-property claims (source of MANIFEST.json, regenerate with bin/mkmanifest.py)."""
-SOURCE_COMMITS = ["7e146d4", "9424340", "a1f5d2c", "8e587e5", "5690cd1", "d545c2f", "62723dc", "8131b7f", "100c501", "28b899b", "5d5fcc0", "dc78639", "f3454e3", "e1a045f", "3bd7141", "68fba81", "1f4c606", "2772037", "fd3af25", "c78d510", "fee30d6", "82e3cd8"]   # fix: commits in /repo (no hook commits are needed)
+SOURCE_COMMITS = ["7e146d4", "9424340", "a1f5d2c", "8e587e5", "5690cd1", "d545c2f", "62723dc", "8131b7f", "100c501", "28b899b", "5d5fcc0", "dc78639", "f3454e3", "e1a045f", "3bd7141", "68fba81", "1f4c606", "2772037", "fd3af25", "c78d510", "fee30d6", "82e3cd8", "4fbdbe2"]   # fix: commits in /repo (no hook commits are needed)
 
 _NOTE = ("Trusted: PyVC (interpreter, VC generation), z3, the numpy/builtins stubs (assumed contracts of dependencies, listed in the "
          "evidence), floats treated as reals except in comparisons, unbounded ints, partial correctness. ")
@@ -32,6 +32,8 @@ for _p, _extra in {
     CHECKS[_p] = {"category": "other", "technique": _B, "text": _BT + _extra, "note": _NOTE + "Bounded extents (see evidence coverage.bounded.bounds)."}
 for _p, _extra in {
     "C08": "parse_json(to_json(h)) field by field for every class x binning type, re-serialisation, version gate (require_compatible_version is unbounded).",
+    "C17": "h1 / h over lists, tuples, iterators, 2-D arrays, pandas and polars Series / DataFrames (values with NaN flags, weights as arrays or Series) against the "
+           "histogram of the equivalent array; refusals of non-numeric, null-containing, wrongly shaped inputs; axis names from Series / column names.",
     "C15": "transform wiring of all seven classes (uninterpreted hypot/arctan2, 2*pi folding), mixin find_bin/fill/fill_n, projection class map.",
     "C16": "densities/bin_sizes/edges/centres/widths/cumulative of 1D and ND histograms, true bin measures and additivity for the seven special classes (cos uninterpreted).",
 }.items():
@@ -50,6 +52,9 @@ CHECKS["C07"] = {"category": "proof", "technique": "contract-based deductive ver
            "fixed_width / integer / static / exponential / quantile(refusals) / ideal_bin_count and the dispatch of calculate_1d_bins.",
    "note": _NOTE + "Not covered: pretty_binning's width choice (log10/argmin over candidates), quantile edges (np.percentile is an uninterpreted stub), astropy rules, "
            "rounding of floor/ceil on binary64 (finding F6), doane's skewness."}
+CHECKS["C17"]["note"] = (_NOTE + "pandas / polars behaviour is an ASSUMED contract (pyvc/libstubs.py, written from the documentation); the cross-check feeds real pandas / polars "
+    "objects to the real adapters on sampled inputs and is the conformance run of these stubs. NOT covered by this check: dask arrays (graph construction / scheduler), xarray and "
+    "pandas conversions of histograms (to_xarray/from_xarray, to_dataframe/to_series, IntervalIndex), the .physt accessors and the Geant4 CSV parser -- no contract on them is claimed.")
 CHECKS["C04"] = {"category": "proof", "technique": "contract-based deductive verification: VCs from the real AST, z3 (nonlinear mixed int/real arithmetic)",
    "text": "FixedWidthBinning._force_bin_existence_single is verified for an unbounded (symbolic) bin count, width, origin, shift and value: value covered, grid and old "
            "bins kept, minimal growth, returned shift, caches invalidated -- every path, all inputs (reals). The adaptive arms of fill are additionally checked bounded "
